@@ -56,6 +56,8 @@ m('c11_revert_f30', 'C11', S, "            if current_task is not None and not c
 m('c03_revert_f31', 'C03', S, "        assert self.name.isidentifier() and not self.name.startswith('_'), (", "        assert self.name.isidentifier(), (", 'revert F31: underscore bus names accepted')
 # ---- C12
 m('c12_revert_f12', 'C12', MO, "                        if isinstance(self.result_type, type) and issubclass(self.result_type, BaseModel):", "                        if issubclass(self.result_type, BaseModel):", 'revert F12')
+m('c10_revert_f33', 'C10', 'bubus/logging.py', "        if root_event.event_parent_id in seen_event_ids:\n            break", "        if False:\n            break", 'revert F33: the timeout log walks a circular parent chain for ever (process hang: shows as watchdog / inconclusive, never as OK)')
+m('c10_revert_f34', 'C10', MO, "            if child_event.event_id in _visited:\n                continue  # reached again", "            if False:\n                continue  # reached again", 'revert F34 (both guards): timeout sweep recurses without end on a circular child graph', more=[(MO, "        if self.event_id in _visited:\n            return\n        _visited.add(self.event_id)\n        for child_event in self.event_children:\n            if False:", "        for child_event in self.event_children:\n            if False:")])
 m('c12_revert_f32', 'C12', MO, "            if event_result.error is not None or isinstance(event_result.result, BaseException)\n", "            if event_result.error or isinstance(event_result.result, BaseException)\n", 'revert F32 (one site): error results selected by truthiness of the exception object')
 m('c11_falsy_error_not_recorded', 'C11', MO, "        if 'error' in kwargs:\n", "        if kwargs.get('error'):\n", 'a falsy exception object raised by a handler is not recorded (R14 C11 idea)')
 m('c12_accessor_order', 'C12', MO, "        results = list(valid_results.values())\n        return cast(T_EventResultType | None, results[0].result) if results else None", "        results = list(valid_results.values())\n        return cast(T_EventResultType | None, results[-1].result) if results else None", 'event_result returns the LAST result')
